@@ -146,12 +146,13 @@ ExcF(n, k) == \E r \in SameNodeReqs(n) : k \in kF[r]
 \* A, leak facet: the sibling's late opCancel withdraws the interest the other call re-registered after a
 \*    receipt; the sender's wants for it are then never cancelled
 ExcA(n, k) == \E r \in SameNodeReqs(n) : k \in kA[r]
-\* B: k received (from src) while the lagging sender can still be triggered to send it: by a second session
-\*    peer m2 becoming available, or by the queued add of a sibling call for the same key on the same session
+\* B: k received (from src) while a lagging sender can still be triggered to send it: by a second session
+\*    peer m2 becoming available, or because another call of the node (queued add on the same session, or the
+\*    sender of another session that has not processed its own cancel/receipt yet) asked for the same key
 ExcB(n, k) == \E r \in SameNodeReqs(n) :
                  /\ MayHaveReceived(r, k)
                  /\ \/ \E src \in Senders(r, k), m2 \in adj[n] : m2 # src /\ SessPeer(r, m2)
-                    \/ rq[r].s # 0 /\ \E q \in SameNodeReqs(n) : q # r /\ rq[q].s = rq[r].s /\ k \in KeySet(q)
+                    \/ \E q \in SameNodeReqs(n) : q # r /\ k \in KeySet(q)
 
 Excuse(n, k) == IF "Dev_C37_LocalBlockWantLeak" \in Devs /\ ExcD(n, k) THEN "Dev_C37_LocalBlockWantLeak"
            ELSE IF "Dev_C37_RewantAfterCancel" \in Devs /\ ExcF(n, k) THEN "Dev_C37_RewantAfterCancel"
